@@ -535,6 +535,123 @@ Definition deep_equal (fuel : nat) (h : heap) (a b : val) : option bool :=
 (* ---------- boolean equalities for the correspondence ---------- *)
 Definition tflag_eqb : N -> N -> bool := N.eqb.
 
+(* ================= reflect: FieldByName over embedded structs ================= *)
+(* runtime/internal/lib/reflect/type.go structType.FieldByNameFunc: breadth-first search, one
+   depth level at a time, over the graph of embedded struct types.  A struct type is a list of
+   fields; an embedded field of struct type T or *T carries the id of T. *)
+Record sfield := SField { sf_name : N; sf_emb : option N }.
+Definition sgraph := list (list sfield).          (* struct type id = position *)
+Definition sfields (g : sgraph) (t : N) : list sfield := nth (N.to_nat t) g [].
+
+Definition cnt_get (c : list (N * N)) (t : N) : N :=
+  match find (fun p => fst p =? t) c with Some p => snd p | None => 0 end.
+Fixpoint cnt_set (c : list (N * N)) (t v : N) : list (N * N) :=
+  match c with
+  | [] => [(t, v)]
+  | (t', v') :: r => if t' =? t then (t, v) :: r else (t', v') :: cnt_set r t v
+  end.
+Definition mem_N (x : N) (l : list N) : bool := existsb (N.eqb x) l.
+
+(* the state of the scan of one depth level *)
+Record fstate := FState {
+  fs_ok : bool;                      (* a match was seen at this level *)
+  fs_res : list N;                   (* its index path *)
+  fs_next : list (N * list N);       (* queue for the next level: type, index path *)
+  fs_ncnt : list (N * N);            (* nextCount *)
+  fs_amb : bool                      (* the early return: annihilated *)
+}.
+
+(* the loop over the fields of one struct t reached with index path idx and multiplicity ct;
+   prop: the multiplicity of t is handed down to the structs it embeds (the code that exists) *)
+Fixpoint scan_fields (prop : bool) (mtch : N -> bool) (ct : N) (idx : list N) (i : N)
+         (fs : list sfield) (st : fstate) : fstate :=
+  match fs with
+  | [] => st
+  | f :: r =>
+      if fs_amb st then st else
+      let st' :=
+        if mtch (sf_name f) then
+          if (1 <? ct) || fs_ok st then FState (fs_ok st) (fs_res st) (fs_next st) (fs_ncnt st) true
+          else FState true (idx ++ [i]) (fs_next st) (fs_ncnt st) false
+        else match sf_emb f with
+             | None => st
+             | Some s =>
+                 if fs_ok st then st
+                 else if 0 <? cnt_get (fs_ncnt st) s
+                      then FState (fs_ok st) (fs_res st) (fs_next st) (cnt_set (fs_ncnt st) s 2) false
+                      else FState (fs_ok st) (fs_res st) (fs_next st ++ [(s, idx ++ [i])])
+                                  (cnt_set (fs_ncnt st) s (if prop && (1 <? ct) then 2 else 1)) false
+             end in
+      scan_fields prop mtch ct idx (i + 1) r st'
+  end.
+
+(* the loop over the work queue of one level *)
+Fixpoint scan_level (prop : bool) (g : sgraph) (mtch : N -> bool) (count : list (N * N))
+         (cur : list (N * list N)) (visited : list N) (st : fstate) : fstate * list N :=
+  match cur with
+  | [] => (st, visited)
+  | (t, idx) :: r =>
+      if fs_amb st then (st, visited)
+      else if mem_N t visited then scan_level prop g mtch count r visited st
+      else scan_level prop g mtch count r (t :: visited)
+                      (scan_fields prop mtch (cnt_get count t) idx 0 (sfields g t) st)
+  end.
+
+(* the outer loop; fuel bounds the number of levels (one per struct type suffices) *)
+Fixpoint fbn_levels (prop : bool) (fuel : nat) (g : sgraph) (mtch : N -> bool)
+         (next : list (N * list N)) (ncnt : list (N * N)) (visited : list N) : option (list N) :=
+  match fuel with
+  | O => None
+  | S fuel' =>
+      match next with
+      | [] => None
+      | _ =>
+          let '(st, visited') := scan_level prop g mtch ncnt next visited (FState false [] [] [] false) in
+          if fs_amb st then None
+          else if fs_ok st then Some (fs_res st)
+          else fbn_levels prop fuel' g mtch (fs_next st) (fs_ncnt st) visited'
+      end
+  end.
+
+(* FieldByNameFunc on the struct type root: the index path of the field, or not found *)
+Definition field_by_name_func (prop : bool) (g : sgraph) (root : N) (mtch : N -> bool) : option (list N) :=
+  fbn_levels prop (S (List.length g)) g mtch [(root, [])] [] [].
+Definition field_by_name (prop : bool) (g : sgraph) (root : N) (name : N) : option (list N) :=
+  field_by_name_func prop g root (N.eqb name).
+
+(* Go (spec, Selectors): the field at the shallowest depth; found iff exactly one PATH of embedded
+   fields reaches a field of that name at that depth *)
+Definition step_paths (g : sgraph) (ps : list (N * list N)) : list (N * list N) :=
+  flat_map (fun p =>
+    let fix go (i : N) (fs : list sfield) :=
+      match fs with
+      | [] => []
+      | f :: r => match sf_emb f with
+                  | Some s => (s, snd p ++ [i]) :: go (i + 1) r
+                  | None => go (i + 1) r
+                  end
+      end in go 0 (sfields g (fst p))) ps.
+Definition matches_of (g : sgraph) (mtch : N -> bool) (ps : list (N * list N)) : list (list N) :=
+  flat_map (fun p =>
+    let fix go (i : N) (fs : list sfield) :=
+      match fs with
+      | [] => []
+      | f :: r => if mtch (sf_name f) then (snd p ++ [i]) :: go (i + 1) r else go (i + 1) r
+      end in go 0 (sfields g (fst p))) ps.
+Fixpoint spec_levels (fuel : nat) (g : sgraph) (mtch : N -> bool) (ps : list (N * list N)) : option (list N) :=
+  match fuel with
+  | O => None
+  | S fuel' =>
+      match matches_of g mtch ps with
+      | [] => spec_levels fuel' g mtch (step_paths g ps)
+      | [m] => Some m
+      | _ => None
+      end
+  end.
+(* a shallowest match, if any, lies above depth (number of struct types) *)
+Definition go_field_by_name_func (g : sgraph) (root : N) (mtch : N -> bool) : option (list N) :=
+  spec_levels (S (List.length g)) g mtch [(root, [])].
+
 (* ================= reflect.Value: integer and float kinds ================= *)
 (* runtime/internal/lib/reflect/value.go: Value.Int, Value.Uint, Value.SetInt, Value.SetUint,
    makeInt, cvtInt, cvtUint, cvtFloat, cvtIntFloat, cvtFloatInt, makeFloat, Value.Float;
